@@ -1,6 +1,7 @@
 package main
 
 import (
+	"sync/atomic"
 	"bytes"
 	"context"
 	"crypto/sha256"
@@ -348,6 +349,8 @@ func (u *Unit) header() string {
 	return b.String()
 }
 
+var queryFileSeq int64
+
 var noLemmas = false
 
 // factLabels remembers which lemma an instance came from (written into the query as a comment; debugging aid)
@@ -461,7 +464,11 @@ func runSolverCtx(ctx context.Context, name, file string, timeout time.Duration)
 func (sv *Solver) solve(q string, order []string) SolveResult {
 	h := sha256.Sum256([]byte(q))
 	file := filepath.Join(sv.scratch, fmt.Sprintf("q%x.smt2", h[:8]))
-	os.WriteFile(file, []byte(q), 0644)
+	// written under a unique name and renamed: two workers with the same query must never let a solver read a
+	// half-written file (seen once as a spurious "solver rejected the query")
+	tmp := fmt.Sprintf("%s.%d.tmp", file, atomic.AddInt64(&queryFileSeq, 1))
+	os.WriteFile(tmp, []byte(q), 0644)
+	os.Rename(tmp, file)
 	res := SolveResult{Status: "unknown", File: file}
 	type ans struct {
 		name, st, out string
